@@ -288,8 +288,77 @@ def index_elem(eng, st, sl, idx):
                 for i, e in sl.elems:
                     if z3.eq(i, v):
                         return e
+        merged = _table_lookup(sl, idx)
+        if merged is not None:
+            return merged
         raise NeedSplit([idx == i for i, _ in sl.elems if z3.is_bv_value(i)])
     return eng.elem(sl, idx)
+
+
+_TABLES = {}
+
+
+def _table_lookup(sl, idx):
+    """Constant table (>= 16 entries of plain integers or field-less enum values) read at a symbolic index: one
+    if-then-else term over index ranges instead of one path per entry."""
+    if len(sl.elems) < 16:
+        return None
+    ent = _TABLES.get(id(sl.elems))
+    if ent is None or ent[0] is not sl.elems:
+        groups = {}
+        mode = None
+        ok = True
+        for i, e in sl.elems:
+            if not z3.is_bv_value(i):
+                ok = False
+                break
+            if e.term is not None and e.tag is None and not e.fields and not e.variants and z3.is_bv_value(z3.simplify(e.term)):
+                k, v = "term", z3.simplify(e.term)
+            elif e.tag is not None and e.term is None and not e.fields and z3.is_bv_value(e.tag) and \
+                    all(not pv.fields for pv in (e.variants or {}).values()):
+                k, v = "tag", e.tag
+            else:
+                ok = False
+                break
+            if mode is None:
+                mode = k
+            elif mode != k:
+                ok = False
+                break
+            groups.setdefault(v.as_long(), (v, []))[1].append(i.as_long())
+        if not ok:
+            ent = (sl.elems, None, None)
+        else:
+            items = []
+            for v, idxs in sorted(groups.values(), key=lambda t: -len(t[1])):
+                idxs = sorted(idxs)
+                rs = []
+                for x in idxs:
+                    if rs and rs[-1][1] == x - 1:
+                        rs[-1][1] = x
+                    else:
+                        rs.append([x, x])
+                items.append((v, rs))
+            ent = (sl.elems, mode, items)
+        if sl.conc is not None and len(_TABLES) < 4096:
+            _TABLES[id(sl.elems)] = ent
+    _, mode, items = ent
+    if mode is None:
+        return None
+    val = items[0][0]
+    w = idx.size()
+    for v, rs in items[1:]:
+        cs = [(idx == z3.BitVecVal(lo, w)) if lo == hi else z3.And(z3.UGE(idx, z3.BitVecVal(lo, w)), z3.ULE(idx, z3.BitVecVal(hi, w)))
+              for lo, hi in rs]
+        val = z3.If(z3.Or(cs) if len(cs) > 1 else cs[0], v, val)
+    proto = sl.elems[0][1]
+    out = Node(fresh_root("tbl"), ty=proto.ty)
+    if mode == "term":
+        out.term = val
+    else:
+        out.tag = val
+        out.variants = {}
+    return out
 
 
 class NeedSplit(Exception):
